@@ -59,7 +59,7 @@ type Server struct {
 	DB *fakepg.DB
 	// Caps are the capabilities announced in the handshake.
 	Caps uint32
-	// TLS, when set before clients connect, makes the server announce CLIENT_SSL and perform the in-protocol upgrade
+	// TLS (set through NewServerTLS), makes the server announce CLIENT_SSL and perform the in-protocol upgrade
 	// (SSL request packet, TLS handshake, then the full handshake response over TLS).
 	TLS *tls.Config
 	// OnResult may tamper with results before they are sent.
@@ -93,12 +93,15 @@ func (b *bufferedConn) Read(p []byte) (int, error) { return b.r.Read(p) }
 const DefaultCaps = CapLongPassword | CapFoundRows | CapLongFlag | CapConnectWithDB | CapLocalFiles | CapProtocol41 | CapTransactions | CapSecureConn | CapMultiResults | CapPluginAuth | CapConnectAttrs | CapPluginAuthLenc | CapDeprecateEOF
 
 // NewServer starts a server on a loopback port.
-func NewServer(db *fakepg.DB) (*Server, error) {
+func NewServer(db *fakepg.DB) (*Server, error) { return NewServerTLS(db, nil) }
+
+// NewServerTLS starts a server that also accepts the in-protocol TLS upgrade with the given configuration (nil = no TLS).
+func NewServerTLS(db *fakepg.DB, tlsCfg *tls.Config) (*Server, error) {
 	ln, err := net.Listen("tcp", "127.0.0.1:0")
 	if err != nil {
 		return nil, err
 	}
-	s := &Server{DB: db, Caps: DefaultCaps, ln: ln, rawIn: map[int]*[]byte{}, rawOut: map[int]*[]byte{}, negCaps: map[int]uint32{}, scripts: map[string]Script{}}
+	s := &Server{DB: db, Caps: DefaultCaps, TLS: tlsCfg, ln: ln, rawIn: map[int]*[]byte{}, rawOut: map[int]*[]byte{}, negCaps: map[int]uint32{}, scripts: map[string]Script{}}
 	go s.accept()
 	return s, nil
 }
